@@ -5,10 +5,10 @@
    live yields an error and the identical state) — a granted request always commits, and every
    refused or failed operation returns the identical state (equality of whole states).
    Linear half: the same for every admissible operation in every reachable linear state. *)
-From Coq Require Import ZArith NArith List Lia.
+From Coq Require Import ZArith NArith List Lia Permutation.
 From Arsenal Require Import Util Bits Gran Tlsf TlsfGeom TlsfInv1 TlsfStep TlsfProps SizeClass TlsfInv2 TlsfStep2 TlsfProps2 GranInv GranTlsf.
 From Arsenal Require Linear LinearInv LinearAlloc LinearFree LinearStep LinearSwap LinearVisit LinearProps.
-From Arsenal Require VamDev VamBlockList Vam VamInv VamInvMeta VamInvThm VamAcctThm VamBal VamBalThm VamNpThm VamFailProps VamRefused VamDefrag VamDefragThm VamDefragBal VamDefragNp VamKindThm.
+From Arsenal Require VamDev VamBlockList Vam VamInv VamInvMeta VamInvThm VamAcctThm VamBal VamBalThm VamNpThm VamFailProps VamRefused VamDefrag VamDefragThm VamDefragBal VamDefragNp VamKindThm VamShapeStep VamMemStable VamRefusedMem VamInvUpd.
 Import ListNotations.
 Open Scope Z_scope.
 
@@ -147,4 +147,20 @@ Theorem C13_allocator_defrag_never_panics : forall c v run G o f v' run' r calls
   (r = RStuck -> o = DPass /\ exists mem off size code, code <> 0 /\ List.In (CMap mem off size code) calls).
 Proof. intros c v run G o f v' run' r calls dr Ha. exact (VamKindThm.dstep_never_panics_full c Ha v run G o f v' run' r calls dr). Qed.
 Print Assumptions C13_allocator_defrag_never_panics.
+(* Exact form for the single requests: an AllocateMemory / AllocateMemoryFor* / CreateBuffer / CreateImage that
+   returns an error without having reached vkBind*Memory leaves EXACTLY the same device memory objects (id, type,
+   size; as a multiset) and every block list holds the same (block id, memory object) pairs, possibly reordered by
+   the incremental sort.  (A Create* whose bind fails is the one refusal that may keep the block it created as
+   the empty spare, see above; reachL: pools created with MinBlockCount >= 0.) *)
+Theorem C13_allocator_refused_same_memory : forall c v G o f v' code calls,
+  cfg_acct c -> reachB c v G -> VamShapeStep.reachL c v -> op_ok v o -> op_dom o -> VamRefusedMem.single_refused o ->
+  step c v o f = (v', RErr code, calls) ->
+  (forall image res mem off bcode, ~ List.In (CBind image res mem off bcode) calls) ->
+  Permutation.Permutation (List.map VamInvUpd.mem_key (m_mems (v_m v'))) (List.map VamInvUpd.mem_key (m_mems (v_m v))) /\
+  (forall lr, Permutation.Permutation (VamRefusedMem.ims v' lr) (VamRefusedMem.ims v lr)).
+Proof.
+  intros c v G o f v' code calls Ha RB RL.
+  exact (VamRefusedMem.refused_same_memory c Ha v G o f v' code calls RB (VamRefusedMem.reachL_LBv c Ha v RL)).
+Qed.
+Print Assumptions C13_allocator_refused_same_memory.
 End Allocator.
